@@ -23,12 +23,21 @@ CHECKS = {
  "C03": (X, "property-based testing: small-scope exhaustive enumeration of chunk maps + proptest random tables, ground-truth oracle from an independent encoder",
          "Every sample of every generated file is looked up through sample_count/sample_offset/read_sample and compared with the ground truth kept by the reference encoder that produced the file; chunk-map structure is enumerated exhaustively for small N, other dimensions and large N are sampled. Bounded search: absence beyond the explored scope is not shown.",
          "trusts the harness' reference encoder (no library code) and proptest; sizes <= 300 B/sample", "DESIGN.md 4/C03"),
+ "C09": (X, "property-based testing: proptest-generated fragmented movies rendered by an independent encoder, ground-truth oracle, single-stream and init+segment forms",
+         "Every sample of every generated fragmented movie is compared with the builder's ground truth (offset, bytes, start, duration, composition offset, count) both when fragments follow moov in one stream and when the media segment is opened against the init segment. One open known finding (single trex) is tolerated by signature and re-confirmed from its witness on every run.",
+         "trusts the reference encoder; one run per traf; sync flags not asserted", "DESIGN.md 4/C09"),
  "C14": (X, "property-based testing: full enumeration of the AAC enum product and AVC profile/compat bytes + proptest random configurations, accessor-vs-configuration oracle",
          "Each generated configuration is muxed with a short history, reopened, and every accessor compared with the configuration (independent AVC profile table; exact-arithmetic one-tick duration tolerance). AAC enum product and profile/compat pairs are exhaustive, the rest sampled.",
          "trusts the harness' tables; durations kept below 2^50 movie ticks", "DESIGN.md 4/C14"),
+ "C16": (X, "exhaustive enumeration of every finite mapping domain (2^32 codes, 2^16 language codes, 2^16 profile pairs, all u8/u16 raw values) against independent tables",
+         "Each mapping is evaluated on its complete domain and compared with tables written in the harness from the specifications; for these domains the check is a decision, not a sample (exhaustive: true). Text form of non-UTF-8 codes and the 2^32 raw values of FixedPointU16/DataType are complete only in the thorough tier.",
+         "trusts the harness' tables (four-character codes, ISO-639 packing, AAC tables, H.264 profile_idc)", "DESIGN.md 4/C16"),
  "C17": (X, "stateful property-based testing over full argument ranges (incl. invalid), panic/abort oracle in two build profiles, plus C01/C02 oracles on all-Ok histories",
          "Every call of every generated history is wrapped in catch_unwind in a wrapping and an overflow-checked build; process death is caught by the supervisor and confirmed in a fresh process. All-Ok representable histories additionally pass the C02 and C01 oracles. Bounded search.",
          "typed enum arguments cannot take undeclared values; histories <= 40 ops, <= 100 tracks", "DESIGN.md 4/C17"),
+ "C18": (X, "property-based testing: proptest-generated iTunes metadata rendered by an independent encoder; expected-value oracle plus metamorphic relation (unknown items are no-ops)",
+         "Accessor results are compared with the values the reference encoder wrote, over all item subsets, encodings, lengths, handler types and meta styles; removing unknown items must not change any answer.",
+         "trusts the reference encoder; text payloads valid UTF-8; undefined year encodings not asserted", "DESIGN.md 4/C18"),
 }
 NOT_APPLICABLE = {}
 for _e in ENGINES:
